@@ -180,6 +180,13 @@ func verifyTable(l *Loaded, cs *ContractSet, tb *TableSpec) *FuncResult {
 		g := env.inlineSpecVals(sf, args, types.Typ[types.Bool]).t
 		c.addObl(&Obligation{Name: name, Kind: "table", Guard: "true", Goal: g, Pos: tb.SpecFn, Func: label})
 	}
+	if tb.Len >= 0 {
+		goal := "false"
+		if len(cells) == tb.Len {
+			goal = "true"
+		}
+		c.addObl(&Obligation{Name: label + "#table.len", Kind: "table", Guard: "true", Goal: goal, Pos: fmt.Sprintf("table has %d cells, contract requires %d", len(cells), tb.Len), Func: label})
+	}
 	// frame: no other store
 	g := sp.Var(tb.Global)
 	bad := ""
@@ -249,7 +256,7 @@ func (e *Env) inlineSpecVals(sf *specFunc, args []Val, rt types.Type) Val {
 			i++
 		}
 	}
-	ne := &Env{tr: e.tr, vars: vars, st: e.st, old: e.old, info: sf.Info, depth: e.depth + 1}
+	ne := &Env{tr: e.tr, vars: vars, st: e.st, old: e.old, info: sf.Info, depth: e.depth + 1, qdepth: e.qdepth, havocked: e.havocked}
 	v := ne.block(sf.Decl.Body.List, rt)
 	v.typ = rt
 	return v
